@@ -154,6 +154,10 @@ def streams(rng, tier):
             env = G.rand_env(rng); env["os_name"] = "y"
             out.append(Case("precedence", "k.eval", [s, "M"] + G.env_args(env)))
     # 5b. long or-lists / and-lists (4..40 atoms on one level), and the environment laws on deeper formulas
+    for n in ([1300] if q else [1300, 3000, 6000]):
+        # very long FLAT formulas: length must not turn into recursion depth
+        f = G.long_expr(rng, n); s = G.render(rng, f)
+        out.append(Case("very-long-lists", "k.eval", [s, "M"] + G.env_args(G.env_for(rng, f))))
     for _ in range(250 if q else 6000):
         f = G.long_expr(rng, rng.randrange(4, 41))
         s = G.render(rng, f)
